@@ -30,6 +30,29 @@ fn backend() -> Option<Rc<dyn Backend>> {
     BACKEND.with(|c| c.borrow().clone())
 }
 
+/// A point at which the installed backend may run another task: models the preemption of a
+/// thread that holds a lock.  Without an installed backend it returns at once.
+pub async fn sync_point() {
+    if backend().is_some() {
+        YieldOnce(false).await
+    }
+}
+
+struct YieldOnce(bool);
+
+impl Future for YieldOnce {
+    type Output = ();
+    fn poll(mut self: Pin<&mut Self>, cx: &mut Context<'_>) -> Poll<()> {
+        if self.0 {
+            Poll::Ready(())
+        } else {
+            self.0 = true;
+            cx.waker().wake_by_ref();
+            Poll::Pending
+        }
+    }
+}
+
 pub mod tokio_shim {
     use super::*;
 
